@@ -23,7 +23,9 @@ use vkit::{
 #[derive(Clone, Debug, PartialEq)]
 pub enum Lat {
     None,
+    /// microseconds
     Const(u64),
+    /// base and randomness in microseconds
     Var(u64, u64),
 }
 
@@ -229,10 +231,10 @@ impl Scenario for LinkSc {
             let mut b = NetworkBuilder::new().mtu(cfg.mtu);
             b = match cfg.lat {
                 Lat::None => b,
-                Lat::Const(ms) => b.latency(Latency::constant(Duration::from_millis(ms))),
-                Lat::Var(ms, r) => b.latency(Latency::variable(
-                    Duration::from_millis(ms),
-                    Duration::from_millis(r),
+                Lat::Const(us) => b.latency(Latency::constant(Duration::from_micros(us))),
+                Lat::Var(us, r) => b.latency(Latency::variable(
+                    Duration::from_micros(us),
+                    Duration::from_micros(r),
                 )),
             };
             if cfg.bits > 0 {
@@ -311,10 +313,10 @@ impl Scenario for LinkSc {
 
         let base_lat = match cfg.lat {
             Lat::None => Duration::ZERO,
-            Lat::Const(ms) | Lat::Var(ms, _) => Duration::from_millis(ms),
+            Lat::Const(us) | Lat::Var(us, _) => Duration::from_micros(us),
         };
         let max_lat = match cfg.lat {
-            Lat::Var(ms, r) => Duration::from_millis(ms + r),
+            Lat::Var(us, r) => Duration::from_micros(us + r),
             _ => base_lat,
         };
         let _ = max_lat;
@@ -537,11 +539,15 @@ pub fn cfgs(tier: &str) -> Vec<(LinkCfg, Bounds)> {
     };
     let d = if q { 2 } else { 3 };
     add("2 machines, 1 net, mtu 100, no latency", vec![vec![0], vec![0]], 1, 100, Lat::None, 0, vec![10], d);
-    add("3 machines, 1 net, mtu 1500, latency 7 ms", vec![vec![0], vec![0], vec![0]], 1, 1500, Lat::Const(7), 0, vec![10], d);
-    add("3 machines (one with 2 taps), 2 nets, mtu 100, latency 5+3 ms", vec![vec![0, 1], vec![0], vec![1]], 2, 100, Lat::Var(5, 3), 0, vec![10], 1);
+    add("3 machines, 1 net, mtu 1500, latency 7 ms", vec![vec![0], vec![0], vec![0]], 1, 1500, Lat::Const(7000), 0, vec![10], d);
+    add("3 machines (one with 2 taps), 2 nets, mtu 100, latency 5+3 ms", vec![vec![0, 1], vec![0], vec![1]], 2, 100, Lat::Var(5000, 3000), 0, vec![10], 1);
     add("2 machines, 1 net, mtu 1500, 1000 B/s (whole ms)", vec![vec![0], vec![0]], 1, 1500, Lat::None, 1000, vec![10, 500], d);
-    add("3 machines, 1 net, mtu 100, 100000 B/s (fractions of a ms)", vec![vec![0], vec![0], vec![0]], 1, 100, Lat::Const(7), 100_000, vec![50], 1);
+    add("3 machines, 1 net, mtu 100, 100000 B/s (fractions of a ms)", vec![vec![0], vec![0], vec![0]], 1, 100, Lat::Const(7000), 100_000, vec![50], 1);
     add("2 machines, 1 net, mtu 65535 (the default), no latency", vec![vec![0], vec![0]], 1, 65535, Lat::None, 0, vec![10], 1);
+    // latencies below one millisecond (a timer wheel ticks in ms; the configured latency still holds)
+    add("2 machines, 1 net, mtu 100, latency 900 us", vec![vec![0], vec![0]], 1, 100, Lat::Const(900), 0, vec![10], 1);
+    add("2 machines, 1 net, mtu 100, latency 600+800 us", vec![vec![0], vec![0]], 1, 100, Lat::Var(600, 800), 0, vec![10], 1);
+    add("2 machines, 1 net, mtu 100, latency 1 us", vec![vec![0], vec![0]], 1, 100, Lat::Const(1), 0, vec![10], 1);
     // rates given in bits per second: a multiple of 8, one that is not, one below 8
     let bit_rates: Vec<u64> = if q { vec![8000, 12, 7] } else { vec![8000, 8001, 9, 12, 15, 7, 1] };
     for r in bit_rates {
@@ -549,9 +555,9 @@ pub fn cfgs(tier: &str) -> Vec<(LinkCfg, Bounds)> {
     }
     if !q {
         add("4 machines, 2 nets (two dual-homed), mtu 65535", vec![vec![0, 1], vec![1, 0], vec![0], vec![1]], 2, 65535, Lat::None, 0, vec![10], 1);
-        add("2 machines, 1 net, mtu 65535, 100000 B/s", vec![vec![0], vec![0]], 1, 65535, Lat::Var(5, 3), 100_000, vec![100, 333], 2);
-        add("4 machines, 1 net, mtu 1500, latency 5+3 ms", vec![vec![0], vec![0], vec![0], vec![0]], 1, 1500, Lat::Var(5, 3), 0, vec![10], 1);
-        add("3 machines, 1 net, mtu 1500, 1000 B/s, latency 7 ms", vec![vec![0], vec![0], vec![0]], 1, 1500, Lat::Const(7), 1000, vec![7, 10], 1);
+        add("2 machines, 1 net, mtu 65535, 100000 B/s", vec![vec![0], vec![0]], 1, 65535, Lat::Var(5000, 3000), 100_000, vec![100, 333], 2);
+        add("4 machines, 1 net, mtu 1500, latency 5+3 ms", vec![vec![0], vec![0], vec![0], vec![0]], 1, 1500, Lat::Var(5000, 3000), 0, vec![10], 1);
+        add("3 machines, 1 net, mtu 1500, 1000 B/s, latency 7 ms", vec![vec![0], vec![0], vec![0]], 1, 1500, Lat::Const(7000), 1000, vec![7, 10], 1);
     }
     // the bit-rate configurations carry their rate in the name
     for (c, _) in v.iter_mut() {
